@@ -12,11 +12,13 @@ import (
 )
 
 type mutexState struct {
-	writer  int // thread id holding write lock, -1 none
+	writer  int // thread id holding write lock (-1 = main thread), noWriter none
 	readers map[int]int
 	clock   vclock // release clock
 	rclock  vclock // release clock of readers
 }
+
+const noWriter = -100
 
 type vclock []int
 
@@ -124,7 +126,7 @@ func (ts *threadState) killAll() {
 func (ts *threadState) mutex(p *Value) *mutexState {
 	m, ok := ts.mutexes[p]
 	if !ok {
-		m = &mutexState{writer: -1, readers: map[int]int{}}
+		m = &mutexState{writer: noWriter, readers: map[int]int{}}
 		ts.mutexes[p] = m
 	}
 	return m
@@ -146,10 +148,10 @@ func (ts *threadState) enabled(t *thread) bool {
 	switch t.pending.kind {
 	case "lock":
 		m := ts.mutex(t.pending.mu)
-		return m.writer == -1 && len(m.readers) == 0
+		return m.writer == noWriter && len(m.readers) == 0
 	case "rlock":
 		m := ts.mutex(t.pending.mu)
-		return m.writer == -1
+		return m.writer == noWriter
 	case "oncewait":
 		o := ts.onces[t.pending.mu]
 		return o.done
@@ -169,6 +171,24 @@ func (in *Interp) join(fr *frame) {
 		}
 	}
 	ts.running = true
+	// every thread first runs, without a scheduling decision, up to its first visible
+	// operation: that prefix touches no shared mutable state (checked by the race detector)
+	for _, t := range ts.threads {
+		if !t.started {
+			t.started = true
+			ts.cur = t
+			go in.threadMain(ts, t)
+			t.resume <- true
+			<-t.yielded
+			ts.cur = nil
+			if t.err != nil {
+				e := t.err
+				t.err = nil
+				ts.running = false
+				panic(e)
+			}
+		}
+	}
 	for {
 		var en []*thread
 		alive := 0
@@ -335,7 +355,7 @@ func (in *Interp) mutexLock(fr *frame, mu *Value, kind string) {
 		in.yield(fr, pendingOp{kind: kind, mu: mu})
 	}
 	if kind == "lock" {
-		if m.writer != -1 || len(m.readers) > 0 {
+		if m.writer != noWriter || len(m.readers) > 0 {
 			// single-threaded self deadlock (threads never get here: disabled)
 			in.deadlock(fr)
 		}
@@ -344,7 +364,7 @@ func (in *Interp) mutexLock(fr *frame, mu *Value, kind string) {
 			fr.thread.clock = fr.thread.clock.join(m.clock).join(m.rclock)
 		}
 	} else {
-		if m.writer != -1 {
+		if m.writer != noWriter {
 			in.deadlock(fr)
 		}
 		m.readers[tid]++
@@ -352,7 +372,6 @@ func (in *Interp) mutexLock(fr *frame, mu *Value, kind string) {
 			fr.thread.clock = fr.thread.clock.join(m.clock)
 		}
 	}
-	in.path.undo = append(in.path.undo, undoEntry{fn: func() {}})
 }
 
 func (in *Interp) mutexUnlock(fr *frame, mu *Value, kind string) {
@@ -363,10 +382,10 @@ func (in *Interp) mutexUnlock(fr *frame, mu *Value, kind string) {
 		in.yield(fr, pendingOp{kind: kind, mu: mu})
 	}
 	if kind == "unlock" {
-		if m.writer == -1 {
+		if m.writer == noWriter {
 			panic(&goPanic{val: "fatal error: sync: unlock of unlocked mutex", kind: "sync", site: fr.site()})
 		}
-		m.writer = -1
+		m.writer = noWriter
 		if fr.thread != nil {
 			m.clock = fr.thread.clock.join(nil)
 			fr.thread.tick()
